@@ -445,6 +445,13 @@ func (f *Frame) slice(x *ssa.Slice) {
 		r := tb.UF("ssub", StrSort, v[0], lo, hi)
 		f.u.addFact(tb.Implies(tb.And(tb.Ule(lo, hi), tb.Ule(hi, ln)), tb.Eq(f.u.slen(r), tb.Sub(hi, lo))))
 		f.u.substrs = append(f.u.substrs, substrRec{r, v[0], lo, hi})
+		// a substring of constant length (at most 64): its bytes are those of the operand
+		if d := tb.Sub(hi, lo); d.Op == "bv" && d.Val.IsInt64() && d.Val.Int64() > 0 && d.Val.Int64() <= 64 {
+			inb := tb.And(tb.Ule(lo, hi), tb.Ule(hi, ln))
+			for i := int64(0); i < d.Val.Int64(); i++ {
+				f.u.addFact(tb.Implies(inb, tb.Eq(tb.UF("sbyte", BV8, r, tb.BV(64, i)), tb.UF("sbyte", BV8, v[0], tb.Add(lo, tb.BV(64, i))))))
+			}
+		}
 		f.set(x, []*Term{r})
 	default:
 		panic(unsupported("slice of " + x.X.Type().String()))
@@ -742,6 +749,10 @@ func (f *Frame) equal(tx, ty types.Type, a, b []*Term) *Term {
 	for i := range a {
 		if a[i].Sort.K == KBV && isFloatSlot(tx, i) {
 			cs = append(cs, tb.UF("feq", BoolSort, a[i], b[i]))
+			continue
+		}
+		if a[i].Sort.K == KStr {
+			cs = append(cs, f.u.strEq(a[i], b[i]))
 			continue
 		}
 		cs = append(cs, tb.Eq(a[i], b[i]))
